@@ -26,7 +26,8 @@ MODULE = "modem/Constellation.tla"
 TRACE = "modem/Trace_Constellation.tla"
 TOL = 1e-9
 DEVS = ["SetPhaseOffsetDropsGray", "QamGrayIndexInverted", "QamAcceptsOne", "NoNormalisation", "ModulateWraps",
-        "DetectRealOnly", "GrayTwice", "BerNotPerBit", "ModulateReusesBuffer"]
+        "DetectRealOnly", "GrayTwice", "BerNotPerBit", "ModulateReusesBuffer", "AbsorbsTinyTerms",
+        "BlockwiseRoundsDown"]
 INVARIANTS = ["TypeOK", "Rejects", "TableOK", "RoundTrip", "ModulateLaw", "EarlierResultsUnchanged", "MLLaw", "Lemmas"]
 RADII = [0.5, 1.0, 3.0]           # PSK sample radius numbers 1..3 (ConstellationOps: the radius does not matter)
 
@@ -427,9 +428,9 @@ def report(ctx, trace, verdicts, care, prop_note=""):
 
 # ------------------------------------------------------------------ TLC: the reference machine
 def machine_cfg(kind, cards, d=8, noff=0, smode="grid", nrows=1, rowlen=64, seed=0, dev=(), emit=True, inv=None,
-                part=0, nparts=1, workers=1):
+                part=0, nparts=1, workers=1, exps=(0,)):
     dv = {k: (k in dev) for k in DEVS}
-    defs = {"Dev": tlc.tla(dv)}
+    defs = {"Dev": tlc.tla(dv), "Exps": tlc.tla(list(exps))}
     cfg = tlc.cfg_text(constants={"Kind": tlc.tla(kind), "Cards": tlc.tla(set(cards)), "D": str(d), "NOff": str(noff),
                                   "SMode": tlc.tla(smode), "NRows": str(nrows), "RowLen": str(rowlen),
                                   "Seed": str(seed), "Part": str(part), "NParts": str(nparts)},
@@ -460,6 +461,8 @@ def model_devs(ctx, wanted):
         "DetectRealOnly": (dict(kind="QAM", cards=[4]), "MLLaw"),
         "GrayTwice": (dict(kind="PSK", cards=[2, 4, 8], rowlen=16), "TableOK"),
         "ModulateReusesBuffer": (dict(kind="PSK", cards=[4], rowlen=16), "EarlierResultsUnchanged"),
+        "AbsorbsTinyTerms": (dict(kind="BPSK", cards=[2], smode="scaled", nrows=2, rowlen=24, exps=(-200, -18, -9, 0, 7, 100)), "MLLaw"),
+        "BlockwiseRoundsDown": (dict(kind="QAM", cards=[4], smode="seeded", nrows=1, rowlen=9), "MLLaw"),
         "BerNotPerBit": (dict(kind="QAM", cards=[16], smode="seeded", nrows=1, rowlen=2), "Lemmas"),
     }
     jobs = [dict(table[d][0], dev=(d,), emit=False) for d in wanted]
